@@ -50,12 +50,13 @@ Applicable(env, T, v, enc) ==
 
 Reals(o) == IF Has(o, "reals") THEN o.reals ELSE <<>>
 
-TextVerdict(L, env, T, v, o) ==
+\* rel: the deviations relevant for v (computed once per value, see LineReport)
+TextVerdict(L, env, T, v, o, rel) ==
   LET t == o.enc.t
       wsLf == o.ind >= 0
       r0 == GserRead(env, L.top, L.tn, t, wsLf, {}, Reals(o), GNoHint)
   IN IF r0.ok /\ AbsEq(env, T, v, r0.v) THEN V("GSER", "ok", "")
-     ELSE LET cands == GDevCandidates(GRelevantDevs(env, T, v))
+     ELSE LET cands == GDevCandidates(rel)
               k == SelectInSeq(cands, LAMBDA S : GserAccepts(env, L.top, L.tn, t, wsLf, S, Reals(o), v))
           IN IF k # 0 THEN V("GSER", "dev", ToString(cands[k]))
              ELSE V("GSER", "reject",
@@ -63,19 +64,21 @@ TextVerdict(L, env, T, v, o) ==
                      ELSE r0.prod \o " at " \o ToString(r0.at) \o ": " \o r0.msg)
                     \o " applicable:" \o ToString(Applicable(env, T, v, o.enc)))
 
-ObsVerdict(L, o) ==
+\* pv: per-value facts [rep |-> GRepresentable, rel |-> GRelevantDevs], indexed by o.vi
+ObsVerdict(L, o, pv) ==
   IF Has(o, "machinery") THEN V("ANY", "machinery", o.machinery)
   ELSE IF Has(o, "compile") THEN V("ANY", "skip", "not compilable: " \o ExcKey("compile", o.compile))
   ELSE LET env == L.env
            T == env.types[L.top]
            v == L.vals[o.vi]
-       IN IF ~GRepresentable(env, T, v) /\ IsEncodeError(o.enc) /\ Applicable(env, T, v, o.enc) = {}
+           rep == pv[o.vi].rep
+       IN IF ~rep /\ IsEncodeError(o.enc) /\ Applicable(env, T, v, o.enc) = {}
           THEN V("GSER", "ok", "")                                   \* no notation, refused
           ELSE IF o.enc.st # "ok"
           THEN V("GSER", "reject", ExcKey("enc", o.enc) \o " applicable:" \o ToString(Applicable(env, T, v, o.enc)))
-          ELSE IF ~GRepresentable(env, T, v)
+          ELSE IF ~rep
           THEN V("GSER", "reject", "text for a value that has no GSER notation applicable:" \o ToString(Applicable(env, T, v, o.enc)))
-          ELSE TextVerdict(L, env, T, v, o)
+          ELSE TextVerdict(L, env, T, v, o, pv[o.vi].rel)
 
 \* INJ: pairs of observations of one layout with identical text and different values
 Collisions(L) ==
@@ -109,10 +112,13 @@ SameAsPrevious(L, j) ==
        /\ \A k \in 1..Len(o.enc.t) : o.enc.t[k] # 10
 
 LineReport(L) ==
-  LET one(acc, j) ==
+  LET env == L.env
+      T == env.types[L.top]
+      pv == Force([k \in 1..Len(L.vals) |-> [rep |-> GRepresentable(env, T, L.vals[k]), rel |-> GRelevantDevs(env, T, L.vals[k])]])
+      one(acc, j) ==
         LET o == L.obs[j] IN
         IF SameAsPrevious(L, j) THEN Append(acc, [acc[j - 1] EXCEPT !.ind = o.ind])
-        ELSE LET r == ObsVerdict(L, o)
+        ELSE LET r == ObsVerdict(L, o, pv)
              IN Append(acc, [vi |-> o.vi, codec |-> o.codec, ne |-> o.ne, ind |-> o.ind,
                              check |-> r.check, verdict |-> r.verdict, detail |-> r.detail])
       per == FoldLeft(one, <<>>, [j \in 1..Len(L.obs) |-> j])
